@@ -37,7 +37,7 @@ ASSUMPTIONS = [
     "simulate is only issued on logistic kinds (documented requirement); estimate uses individual parameters returned by an earlier personalisation of the same history or generated ones.",
     "Bit-exact comparisons (NaN-aware).",
 ]
-REQUIRED_CLASSES = {"call:personalize": 150, "call:estimate": 60, "call:simulate": 40, "after-fit": 150, "call:saveload": 40, "nontrivial": 60}
+REQUIRED_CLASSES = {"input:dataset-object": 30, "call:personalize": 150, "call:estimate": 60, "call:simulate": 40, "after-fit": 150, "call:saveload": 40, "nontrivial": 60}
 
 ALGOS = ("scipy_minimize", "mean_posterior", "mode_posterior")
 NEUTRALISE_F64 = True  # see known_findings.json (F64)
@@ -139,15 +139,23 @@ def do_call(model, op, ctx):
 
     name = op[0]
     if name == "personalize":
-        _, algo, ckey, seed, reuse = op
+        _, algo, ckey, seed, reuse = op[:5]
+        form = op[5] if len(op) > 5 else "df"
         df = gen.cohort_df(ctx["cohorts"][ckey])
-        if "events" in ctx["cohorts"][ckey]:
-            from leaspy.io.data import Data
+        from leaspy.io.data import Data, Dataset
 
-            data_in = Data.from_dataframe(df, "joint")
+        joint = "events" in ctx["cohorts"][ckey]
+        if joint or form in ("data", "dataset"):
+            data_in = Data.from_dataframe(df, "joint") if joint else Data.from_dataframe(df)
+            if form == "dataset":
+                data_in = Dataset(data_in)
         else:
             data_in = df
         df_copy = df.copy(deep=True)
+        tensors_before = None
+        if isinstance(data_in, Dataset):
+            tensors_before = {a: fast_copy(getattr(data_in, a)) for a in ("values", "mask", "timepoints", "event_time", "event_bool")
+                              if getattr(data_in, a, None) is not None}
         kw = dict(seed=seed, progress_bar=False)
         if algo == "scipy_minimize":
             kw["use_jacobian"] = False
@@ -164,6 +172,10 @@ def do_call(model, op, ctx):
             raise Fail("personalize:input-table-modified", "table differs from its deep copy", "unchanged")
         if settings.parameters != params_copy:
             raise Fail("personalize:settings-object-modified", str(settings.parameters)[:200], str(params_copy)[:200])
+        if tensors_before is not None:
+            for a, v in tensors_before.items():
+                if not same(getattr(data_in, a), v):
+                    raise Fail("personalize:dataset-tensors-modified", f"Dataset.{a} changed during the call", "unchanged (NaN-aware, bit-exact)")
         return ip_to_dict(ip), ip
     if name == "estimate":
         _, ages, _ = op
@@ -251,6 +263,8 @@ def run_history(col: Collector, kind_key, cohorts, ops, inp, engine):
             twin = twin_of(model)
             check_snapshot(model, before, "save")
             res, ip = do_call(model, op, ctx)
+            if name == "personalize" and len(op) > 5 and op[5] == "dataset":
+                classes.append("input:dataset-object")
             check_snapshot(model, before, name)
             ctx_t = dict(ctx, settings={})
             res_t, _ = do_call(twin, op, ctx_t)
@@ -277,6 +291,9 @@ def run_history(col: Collector, kind_key, cohorts, ops, inp, engine):
             if type(e).__name__ == "ConvergenceError":
                 col.exclude("joint-init-weibull-fit-not-converged")
                 return judged, None
+            if gen.is_zero_scale_refusal(e):
+                col.exclude("sampler-refused:zero-initial-scale")
+                return judged, None
             col.fail("history", f"unexpected-exception:{name}:" + exc_bucket(e), dict(inp, failed_at=idx), observed=repr(e)[:400], expected="call succeeds")
             col.case(classes=classes)
             return judged, None
@@ -292,21 +309,26 @@ def _brief(res):
 # engine A
 # ------------------------------------------------------------------------------------------------
 ALPHABET = [["fit", "A", 8, 0], ["personalize", "scipy_minimize", "B", 1, False], ["personalize", "mean_posterior", "B", 1, False],
-            ["personalize", "mode_posterior", "B", 1, False], ["estimate", [60.0, 70.5, 66.0], 0], ["simulate", 3], ["saveload"]]
+            ["personalize", "mode_posterior", "B", 1, False], ["estimate", [60.0, 70.5, 66.0], 0], ["simulate", 3], ["saveload"],
+            ["personalize", "scipy_minimize", "B", 1, False, "dataset"], ["personalize", "mean_posterior", "A", 1, False, "dataset"]]
 
 
 def histories(max_len_all=2):
     out = []
     for L in range(1, max_len_all + 1):
-        for h in itertools.product(range(len(ALPHABET)), repeat=L):
+        for h in itertools.product(range(7), repeat=L):
             if h[0] == 0:  # a history that does not start with a fit has nothing to call
                 out.append(list(h))
-    for h in itertools.product(range(len(ALPHABET)), repeat=3):
+    for h in itertools.product(range(7), repeat=3):
         if h[0] == 0:
             out.append(list(h))
+    # Dataset objects handed over by the caller (tensors must come back untouched)
+    for a in (7, 8):
+        out.append([0, a])
+        out.append([0, a, a])
     # a personalisation in between so that estimate has parameters, and fit -> perso on the SAME cohort
     for a in (1, 2, 3):
-        for b in range(1, len(ALPHABET)):
+        for b in range(1, 7):
             out.append([0, a, 4, b])
     return out
 
@@ -347,7 +369,8 @@ def gen_history(draw, kind_keys):
         cohorts[ck] = draw(gen.cohort(kind=gen.data_kind_for(cfg), n_ind=(4, 7) if ck == "A" else (1, 5), n_visits=(2, 5) if ck == "A" else (1, 4),
                                       features=feats, event=cfg["kind"] == "joint", id_kinds=ids, shuffle=False, fit_ready=(ck == "A")))
     call = st.one_of(
-        st.tuples(st.just("personalize"), st.sampled_from(ALGOS), st.sampled_from(["A", "B", "B"]), st.integers(0, 99), st.booleans()).map(list),
+        st.tuples(st.just("personalize"), st.sampled_from(ALGOS), st.sampled_from(["A", "B", "B"]), st.integers(0, 99), st.booleans(),
+                  st.sampled_from(["df", "data", "dataset", "dataset"])).map(list),
         st.tuples(st.just("estimate"), st.lists(gen.f32(40, 95), min_size=1, max_size=4), st.just(0)).map(list),
         st.tuples(st.just("simulate"), st.integers(0, 99)).map(list),
         st.just(["saveload"]),
